@@ -196,43 +196,82 @@ def v_connector_uniform(inst: Any, p: Dict[str, Any], ctx: Dict[str, Any]) -> Li
     return out
 
 
-def v_connector_walk(inst: Any, p: Dict[str, Any], ctx: Dict[str, Any]) -> List[Problem]:
-    """RandomWalkGenerator.__call__: 'grids that are guaranteed be solvable'.  Structure for every size;
-    for tiny boards an exhaustive search for pairwise disjoint paths decides solvability."""
-    n, A = p["grid"], p["agents"]
-    out, ok = _connector_structure(inst.agents, np.asarray(inst.grid), n, A, True)
-    if any(w == "agent-coordinate-outside-grid" for w, _ in out):
-        ctx["count"]["connector_boards_with_blocked_start"] += 1
-        return out
-    if _scalar(inst.step_count) != 0:
-        out.append(("step-count-not-zero", f"step_count={_scalar(inst.step_count)}"))
-    if ok and n <= 4 and A <= 3:
-        starts = [tuple(c) for c in np.asarray(inst.agents.start).tolist()]
-        targets = [tuple(c) for c in np.asarray(inst.agents.target).tolist()]
-        ctx["count"]["connector_exhaustive_path_searches"] += 1
-        if not _paths_exist(n, starts, targets):
-            out.append(("board-not-solvable", f"no pairwise disjoint paths exist: starts={starts} targets={targets}"))
+def _agents_equal(a: Any, b: Any) -> bool:
+    return all(np.array_equal(np.asarray(getattr(a, f)), np.asarray(getattr(b, f))) for f in ("id", "start", "target", "position"))
+
+
+def _blocked_starts(solved: np.ndarray, start: np.ndarray) -> List[int]:
+    """Agents whose start cell has no 4-neighbour carrying a cell of their own wire on the solved board.
+    A healthy random walk always leaves the first-move cell (path / target code of the agent) next to the
+    start, so this identifies the agents whose start was boxed in when it was placed (defect #9)."""
+    n = solved.shape[0]
+    out = []
+    for i in range(len(start)):
+        r, c = int(start[i, 0]), int(start[i, 1])
+        own = False
+        for dr, dc in N4:
+            rr, cc = r + dr, c + dc
+            if 0 <= rr < n and 0 <= cc < n and 1 + 3 * i <= solved[rr, cc] <= 3 + 3 * i:
+                own = True
+        if not own:
+            out.append(i)
     return out
 
 
-def v_connector_board(inst: Any, p: Dict[str, Any], ctx: Dict[str, Any]) -> List[Problem]:
-    """RandomWalkGenerator.generate_board: 'Tuple containing solved board, the agents and an empty training
-    board'.  The solved board must carry, for every agent, a 4-connected path from its start to its target
-    made of that agent's own cells (path 1+3i, head 2+3i, target 3+3i): disjoint by construction of the
-    encoding, hence a witness of solvability at every size."""
+def v_connector_walk(inst: Any, p: Dict[str, Any], ctx: Dict[str, Any]) -> List[Problem]:
+    """RandomWalkGenerator: 'grids that are guaranteed be solvable ... performs a random walk from each
+    [start]. Targets are placed at their terminuses'; generate_board returns 'solved board, the agents and an
+    empty training board'.
+    * every size: heads/targets in the grid on distinct cells, grid encoding consistent;
+    * every size: the solved board of generate_board (verified to describe the same agents and training
+      board as __call__) carries, for each agent, a 4-connected path of that agent's own cells (path 1+3i,
+      head 2+3i, target 3+3i) from start to target - pairwise disjoint by the encoding, i.e. a witness of
+      solvability;
+    * tiny boards (grid <= 4, <= 3 agents): independent exhaustive search for pairwise disjoint paths.
+    Boards on which an agent's start was boxed in (no free neighbour for the first move) are the known
+    defect #9; all its symptoms (target left at (-1, n-1); or the walk continuing from that off-grid
+    cell, which detaches the wire from its start and leaves a stray cell at (n-1, n-1)) are reported under
+    ONE signature, `agent-coordinate-outside-grid`, and nothing else is reported for such a board."""
     n, A = p["grid"], p["agents"]
-    agents, grid, solved = inst["agents"], np.asarray(inst["grid"]), np.asarray(inst["solved_grid"])
-    out, ok = _connector_structure(agents, grid, n, A, True)
+    st, board = inst["state"], inst["board"]
+    solved = np.asarray(board["solved_grid"])
+    start = np.asarray(st.agents.start)
+    # --- defect #9 diagnosis first (its consequences would otherwise surface under several names)
+    tgt = np.asarray(st.agents.target)
+    off = ((tgt < 0) | (tgt >= n) | (start < 0) | (start >= n)).any(axis=1) if tgt.shape == (A, 2) == start.shape else None
+    if off is not None and solved.shape == (n, n) and not ((start < 0) | (start >= n)).any():
+        blocked = _blocked_starts(solved, start)
+        if blocked or off.any():
+            ctx["count"]["connector_boards_with_blocked_start"] += 1
+            i = blocked[0] if blocked else int(np.nonzero(off)[0][0])
+            if off.any():
+                j = int(np.nonzero(off)[0][0])
+                ctx["count"]["connector_blocked_start_target_left_off_grid"] += 1
+                sym = f"agent {j} has target {tgt[j].tolist()} outside the {n}x{n} grid"
+            else:
+                ctx["count"]["connector_blocked_start_walk_continued_from_off_grid"] += 1
+                sym = (f"agent {i}'s walk went on from the off-grid cell (-1,{n - 1}): its target {tgt[i].tolist()} is not "
+                       f"joined to its start by its own wire")
+            return [("agent-coordinate-outside-grid",
+                     f"start {start[i].tolist()} of agent {i} had no free neighbour for the first move "
+                     f"(first move = flat index -1 = cell (-1,{n - 1})); {sym} "
+                     f"(starts={start.tolist()}, targets={tgt.tolist()}, solved board={solved.tolist()})")]
+    out, ok = _connector_structure(st.agents, np.asarray(st.grid), n, A, True)
     if any(w == "agent-coordinate-outside-grid" for w, _ in out):
         ctx["count"]["connector_boards_with_blocked_start"] += 1
         return out
-    if solved.shape != (n, n):
-        return out + [("solved-board-shape", f"solved board has shape {solved.shape}")]
-    if solved.min() < 0 or solved.max() > 3 * A:
-        out.append(("solved-board-unknown-code", f"codes {np.unique(solved).tolist()} with {A} agents"))
+    if _scalar(st.step_count) != 0:
+        out.append(("step-count-not-zero", f"step_count={_scalar(st.step_count)}"))
+    # --- pairing of __call__ with generate_board
+    if not (_agents_equal(st.agents, board["agents"]) and np.array_equal(np.asarray(st.grid), np.asarray(board["grid"]))):
+        out.append(("call-disagrees-with-generate-board",
+                    "generator(key) and generate_board(split(key)[1]) describe different agents / training boards"))
         return out
-    start, target = np.asarray(agents.start), np.asarray(agents.target)
-    total_path = 0
+    ctx["count"]["extra_evaluations"] += 1
+    if solved.shape != (n, n) or solved.min() < 0 or solved.max() > 3 * A:
+        out.append(("solved-board-unknown-code", f"solved board shape {solved.shape} codes {np.unique(solved).tolist()[:12]}"))
+        return out
+    target = np.asarray(st.agents.target)
     for i in range(A):
         mine = (solved >= 1 + 3 * i) & (solved <= 3 + 3 * i)
         s, t = tuple(start[i]), tuple(target[i])
@@ -240,14 +279,17 @@ def v_connector_board(inst: Any, p: Dict[str, Any], ctx: Dict[str, Any]) -> List
         tars = np.argwhere(solved == 3 + 3 * i).tolist()
         if heads != [list(s)] or tars != [list(t)]:
             out.append(("solved-board-endpoints-differ-from-agents",
-                        f"agent {i}: head cells {heads} target cells {tars} but start={list(s)} target={list(t)}; "
-                        f"solved={solved.tolist()}"))
-            continue
-        if not flood(mine, s)[t]:
+                        f"agent {i}: head cells {heads} target cells {tars} but start={list(s)} target={list(t)}; solved={solved.tolist()}"))
+        elif not flood(mine, s)[t]:
             out.append(("solved-board-has-no-path-for-agent",
                         f"agent {i}: its cells do not connect start {list(s)} to target {list(t)}; solved={solved.tolist()}"))
-        total_path += int(mine.sum()) - 2
-    ctx["count"]["connector_path_cells"] += total_path
+        ctx["count"]["connector_path_cells"] += max(0, int(mine.sum()) - 2)
+    if ok and n <= 4 and A <= 3:
+        starts = [tuple(c) for c in start.tolist()]
+        targets = [tuple(c) for c in target.tolist()]
+        ctx["count"]["connector_exhaustive_path_searches"] += 1
+        if not _paths_exist(n, starts, targets):
+            out.append(("board-not-solvable", f"no pairwise disjoint paths exist: starts={starts} targets={targets}"))
     return out
 
 
@@ -642,7 +684,7 @@ def v_sudoku_db_row(inst: Any, p: Dict[str, Any], ctx: Dict[str, Any]) -> List[P
 
 VALIDATORS = {
     "maze": v_maze, "cleaner": v_cleaner, "connector_uniform": v_connector_uniform,
-    "connector_walk": v_connector_walk, "connector_board": v_connector_board, "lbf": v_lbf,
+    "connector_walk": v_connector_walk, "lbf": v_lbf,
     "robot_warehouse": v_robot_warehouse, "snake": v_snake, "game_2048": v_game_2048, "tetris": v_tetris,
     "sokoban": v_sokoban, "pac_man": v_pac_man, "minesweeper": v_minesweeper, "sudoku": v_sudoku,
 }
